@@ -9,12 +9,15 @@ pub mod field;
 pub mod consts;
 pub mod eddsa;
 pub mod edwards;
+pub mod group_ops;
 pub mod helpers;
 pub mod montgomery;
 pub mod public_consts;
 pub mod ristretto;
 pub mod scalar;
 pub mod scalarmul;
+pub mod serde_ops;
+pub mod totality;
 #[cfg(curve25519_dalek_verif)]
 pub mod vector;
 
@@ -67,6 +70,15 @@ fn dispatch(req: &Req) -> Out {
     }
     if op.starts_with("sig.") {
         return eddsa::exec(op, a);
+    }
+    if op.starts_with("sd.") {
+        return serde_ops::exec(op, a);
+    }
+    if op.starts_with("tot.") {
+        return totality::exec(op, a);
+    }
+    if op.starts_with("gp.") {
+        return group_ops::exec(op, a);
     }
     if op.starts_with("kp.") {
         return public_consts::exec(op, a);
